@@ -243,7 +243,7 @@ theorem same_file_accumulates (c : Ctx) (tgt : Target) (po : List Nat) (gens : L
           simp only [List.filter_cons, hg, decide_false, Bool.false_eq_true, if_false]
 
 /-! non-vacuity -/
-def g1 : Gen := ⟨"g1".toList, [1, 3], some ["mine".toList], "go".toList, "a.go".toList, [], [], [], false, false, []⟩
+def g1 : Gen := ⟨"g1".toList, [1, 3], some ["mine".toList], "go".toList, "a.go".toList, [], [], [], false, false, [], false⟩
 example : (runGens ⟨[1, 2, 3], ["raw".toList], ["go".toList], false, false⟩ ⟨"p".toList, "d".toList, [1, 2, 3], [], [g1]⟩
     [1, 2, 3] [g1] []).2.isRight = true := by decide
 
